@@ -656,8 +656,9 @@ func (w *world) await(r *subRec, where string) {
 				resumed = fmt.Sprintf(", its consumer had stopped reading and resumed at stamp %d", ra)
 			}
 			w.failf("NEVER-TOLD", "%s: subscriber actor %d (Subscribe returned at stamp %d%s; channel still open; %s) "+
-				"received no DocChanged of actor %d after stamp %d although Publish %q [%d,%d] by actor %d on key %d completed %v ago or more; untold publishes: %v",
-				where, r.id, r.subExit, resumed, state, p.id, p.entry, p.tag, p.entry, p.exit, p.id, p.key, waitCap, tags)
+				"was not told about Publish %q [%d,%d] by actor %d on key %d, completed %v ago or more: after stamp %d it received neither the event of that or of a later "+
+				"publish of actor %d nor two events of earlier ones (de-duplication); untold publishes: %v",
+				where, r.id, r.subExit, resumed, state, p.tag, p.entry, p.exit, p.id, p.key, waitCap, p.entry, p.id, tags)
 			return
 		}
 		gotime.Sleep(2 * gotime.Millisecond)
@@ -761,11 +762,10 @@ func (w *world) publish(ai, si int, op string, id, k int, tag string) *call {
 //     the marker: the resume races the last flush);
 //  3. the consumer resumes and one more tagged change is published.
 //
-// There is no oracle of its own: await demands, as everywhere, that r receives
-// every completed change published after its consumer resumed (a DocChanged
-// of that actor stamped after the publish started) or observes its channel
-// closed; the changes of step 2 may be dropped by the publish timeout. Whether
-// r was pruned is only recorded (classes).
+// There is no oracle of its own: await demands, as everywhere, that r is told
+// (see pending) about every completed change published after its consumer
+// resumed or observes its channel closed; the changes of step 2 may be dropped
+// by the publish timeout. Whether r was pruned is only recorded (classes).
 func (w *world) episode(ai, si int, a *Actor, s Step, st *actorState) {
 	r := st.cur
 	if r == nil {
@@ -1205,6 +1205,9 @@ func evalScript(sc Script) outcome {
 		out.hist = worlds[0].history(400)
 	}
 	out.nonTrivial = out.ev["nontrivial"] > 0
+	if lw.starved() {
+		out.ev["case_with_starved_process"] = 1 // cap hits of still-subscribed watchers were inconclusive in this case
+	}
 	return out
 }
 
